@@ -300,7 +300,7 @@ def try_pure_call(ex, st, fname, args):
     except (NotPure, GoPanic, Unsupported, PathEnd):
         del st.pc[npc:]
         return False, None
-    ex.stats.merged_calls = getattr(ex.stats, "merged_calls", 0) + 1
+    ex.stats.merged_calls += 1
     return True, v
 
 
@@ -348,5 +348,5 @@ def try_merge_if(ex, st, fr, ins, c):
     fr.ip = nphi
     fr.locals.update(newv)
     st.nbranch += 1
-    ex.stats.merged_ifs = getattr(ex.stats, "merged_ifs", 0) + 1
+    ex.stats.merged_ifs += 1
     return True
